@@ -33,7 +33,7 @@ CONSTANTS
   MaxLevel,   \* bound on behaviour length (safety net)
   Shape,      \* "" or "chain": restricts the trees that are built (checked on the successor state)
   MaxEdits,   \* in-place edits of the built model (0: none); every state after an edit is a case too
-  EditKinds,  \* subset of {"card","addchild","rmkid","replkid","move","import","abs","attrval","rmctc","ctcop","rename"}
+  EditKinds,  \* subset of {"card","addchild","rmkid","replkid","move","reown","import","abs","attrval","attrname","rmattr","rmctc","ctcop","rename"}
   Walks,      \* 0: exhaustive exploration; n > 0: n seeded random walks ("random larger ones")
   Seed        \* seed of the walks (VERIF_SEED)
 
@@ -130,6 +130,12 @@ EditChoices ==
                             /\ (model.rels[j].hi = Star \/ model.rels[j].hi <= NKids(model.rels[j]) - 1)},
                    j2 \in {j2 \in DOMAIN model.rels : j2 # j}} : j \in DOMAIN model.rels}
    ELSE {})
+  \cup (IF "reown" \in EditKinds
+        THEN UNION {{[k |-> "reown", j |-> j, i |-> i, x |-> "", lo |-> 0, hi |-> 0] :
+                        i \in {i \in 1..NF : /\ model.feats[i].name # model.rels[j].owner
+                                              /\ model.feats[i].name \notin UNION {SubtreeOf(c) : c \in Kids(model.rels[j])}}} :
+                    j \in DOMAIN model.rels}
+        ELSE {})
   \cup (IF "import" \in EditKinds
         THEN {[k |-> "import", j |-> 0, i |-> i, x |-> "", lo |-> 0, hi |-> 0] : i \in DOMAIN ImportSeq} ELSE {})
   \cup
@@ -157,6 +163,12 @@ EditChoices ==
   \cup (IF "attrval" \in EditKinds
         THEN UNION {{[k |-> "attrval", j |-> a, i |-> i, x |-> v.val, lo |-> 0, hi |-> 0] :
                         a \in DOMAIN model.feats[i].attrs, v \in {v \in AttrVals : v.val # "n"}} : i \in 1..NF}
+        ELSE {})
+  \cup (IF "attrname" \in EditKinds
+        THEN UNION {{[k |-> "attrname", j |-> a, i |-> i, x |-> "", lo |-> 0, hi |-> 0] : a \in DOMAIN model.feats[i].attrs} : i \in 1..NF}
+        ELSE {})
+  \cup (IF "rmattr" \in EditKinds
+        THEN UNION {{[k |-> "rmattr", j |-> a, i |-> i, x |-> "", lo |-> 0, hi |-> 0] : a \in DOMAIN model.feats[i].attrs} : i \in 1..NF}
         ELSE {})
   \cup (IF "rmctc" \in EditKinds
         THEN {[k |-> "rmctc", j |-> 0, i |-> i, x |-> "", lo |-> 0, hi |-> 0] : i \in DOMAIN model.ctcs} ELSE {})
@@ -186,6 +198,9 @@ EditBy(d) ==
             /\ model' = MoveKidF(model, d.j, d.i, d.lo)
             /\ hist'  = Append(hist, [a |-> "EditMove", o |-> Ref(d.j).o, ri |-> Ref(d.j).ri, n |-> model.rels[d.j].kids[d.i],
                                       o2 |-> Ref(d.lo).o, ri2 |-> Ref(d.lo).ri])
+       [] d.k = "reown" ->
+            /\ model' = ReOwnF(model, d.j, model.feats[d.i].name)
+            /\ hist'  = Append(hist, [a |-> "EditReown", o |-> Ref(d.j).o, ri |-> Ref(d.j).ri, o2 |-> model.feats[d.i].name])
        [] d.k = "import" ->
             LET new == <<[name |-> "i1", ast |-> ImportSeq[d.i][1]], [name |-> "i2", ast |-> ImportSeq[d.i][2]]>>
             IN  /\ model' = ImportF(model, new)
@@ -200,6 +215,13 @@ EditBy(d) ==
             /\ model.feats[d.i].attrs[d.j].val # d.x
             /\ model' = SetAttrValF(model, model.feats[d.i].name, d.j, d.x)
             /\ hist'  = Append(hist, [a |-> "EditAttrVal", f |-> model.feats[d.i].name, k |-> d.j, val |-> d.x])
+       [] d.k = "attrname" ->
+            LET fresh == "a" \o ToString(Len(AttrNames) + 1 + Cardinality({h \in DOMAIN hist : hist[h].a = "EditAttrName"}))
+            IN  /\ model' = SetAttrNameF(model, model.feats[d.i].name, d.j, fresh)
+                /\ hist'  = Append(hist, [a |-> "EditAttrName", f |-> model.feats[d.i].name, k |-> d.j, n |-> fresh])
+       [] d.k = "rmattr" ->
+            /\ model' = RemoveAttrF(model, model.feats[d.i].name, d.j)
+            /\ hist'  = Append(hist, [a |-> "EditRemoveAttr", f |-> model.feats[d.i].name, k |-> d.j])
        [] d.k = "rmctc" ->
             /\ model' = RemoveCtcF(model, d.i)
             /\ hist'  = Append(hist, [a |-> "EditRemoveCtc", i |-> d.i])
@@ -263,10 +285,10 @@ RandomStep ==
                [] kd = "attr"  -> \E c \in {PickS(AttrCodes, 11)}, v \in {PickS(AttrVals, 13)} : AddAttribute(c[1], c[2], v)
                [] kd = "ctc"   -> IF CanGrow /\ (PickS(1..3, 15) <= 2 \/ ~(Len(model.ctcs) < MaxCtc /\ CtcReady))
                                   THEN \E s \in {PickS(TreesOver(Names(model), CtcBinOps, 1), 16)},
-                                          o \in {PickS(CtcBinOps, 17)}, k \in {PickS(1..5, 18)} :
+                                          o \in {PickS(CtcBinOps, 17)}, k \in {PickS(1..6, 18)} :
                                          LET t == model.ctcs[Len(model.ctcs)].ast
                                          IN  ReplaceConstraint(IF k <= 2 THEN Bin(o, t, s) ELSE IF k <= 4 THEN Bin(o, s, t)
-                                                               ELSE Un("NOT", t))
+                                                               ELSE IF k = 5 THEN Un("NOT", t) ELSE Un("NOT", Un("NOT", t)))
                                   ELSE \E t \in {PickS(TreesOver(Names(model), CtcBinOps, CtcDepth)
                                             \cup (IF CtcArith THEN ArithTrees(Names(model)) ELSE {})
                                             \cup {ChainT(c[1], SetToSeq(Names(model)), c[2]) : c \in CtcChains}, 14)} : AddConstraint(t)
